@@ -179,3 +179,92 @@ pub fn bad_loop_carried(v: &[u8]) -> u8 {
     }
     r
 }
+// loop-carried indices: provable only by induction (lib/bounds.py prove_loop_invariant)
+pub fn ok_loop_counter(it: &[u8]) -> [u8; 4] {
+    // counter <= 4 is an invariant: tested against the bound before the store, incremented after it
+    let mut out = [0u8; 4];
+    let mut counter = 0usize;
+    for x in it {
+        if counter == 4 {
+            return out;
+        }
+        out[counter] = *x;
+        counter += 1;
+    }
+    out
+}
+pub fn ok_loop_countdown(v: &[u8], mut mask: u8) -> u8 {
+    // idx starts at len - 1 (len >= 1 on this path) and only decreases while > 0
+    if v.is_empty() {
+        return 0;
+    }
+    let mut idx = v.len() - 1;
+    let mut acc = 0u8;
+    while mask != 0 {
+        acc ^= v[idx];
+        if idx > 0 {
+            idx -= 1;
+        }
+        mask >>= 1;
+    }
+    acc
+}
+pub fn ok_loop_guarded(v: &[u8], bits: u8) -> u8 {
+    // while !done, idx < len: idx starts at len - 1 when the slice is non-empty (done otherwise) and only decreases
+    let mut done = v.is_empty();
+    let mut idx: usize = if done { 0 } else { v.len() - 1 };
+    let mut acc = 0u8;
+    let mut m = 1u8;
+    while m != 0 {
+        if !done {
+            if bits & m != 0 {
+                if idx == 0 {
+                    done = true;
+                } else {
+                    idx -= 1;
+                }
+            } else {
+                acc = v[idx];
+                done = true;
+            }
+        }
+        m <<= 1;
+    }
+    acc
+}
+pub fn bad_loop_first_iteration_only(v: &[u8], n: usize) -> u8 {
+    // in bounds on the first iteration only: i grows without a test against the length
+    let mut i = 0usize;
+    let mut s = 0u8;
+    while i <= n {
+        if v.is_empty() {
+            return 0;
+        }
+        s ^= v[i];
+        i += 1;
+    }
+    s
+}
+pub fn bad_loop_guard_dropped(v: &[u8], bits: u8) -> u8 {
+    // like ok_loop_guarded, but the empty-slice case is not marked done: v[0] on an empty slice
+    let mut done = false;
+    let mut idx: usize = v.len().saturating_sub(1);
+    let mut acc = 0u8;
+    let mut m = 1u8;
+    while m != 0 {
+        if !done {
+            if bits & m != 0 {
+                if idx == 0 {
+                    done = true;
+                } else {
+                    idx -= 1;
+                }
+            } else {
+                acc = v[idx];
+                done = true;
+            }
+        }
+        m <<= 1;
+    }
+    acc
+}
